@@ -50,9 +50,18 @@ func (ex *Exec) vcall(th *Thread, caller *Frame, name string, args []Value, fini
 	case "vInt":
 		tag := ex.tagName(ex.strArg(args[0]))
 		lo, hi := ex.intArg(args[1]), ex.intArg(args[2])
-		t := c.Var(64, "in!"+tag)
+		var t *Term
+		if lo >= 0 {
+			t = c.VarR(64, "in!"+tag, uint64(lo), uint64(hi))
+		} else {
+			t = c.Var(64, "in!"+tag)
+		}
 		ex.inputs = append(ex.inputs, &InputVar{Tag: tag, Kind: "int", Term: t})
-		ex.assume(c.And(c.Sle(c.I64(lo), t), c.Sle(t, c.I64(hi))))
+		if lo >= 0 {
+			ex.assume(c.RangeConstraint(t))
+		} else {
+			ex.assume(c.And(c.Sle(c.I64(lo), t), c.Sle(t, c.I64(hi))))
+		}
 		finish(t)
 	case "vLen", "vChoice":
 		tag := ex.tagName(ex.strArg(args[0]))
@@ -79,8 +88,8 @@ func (ex *Exec) vcall(th *Thread, caller *Frame, name string, args []Value, fini
 	case "vBytes", "vString":
 		tag := ex.tagName(ex.strArg(args[0]))
 		max := ex.intArg(args[1])
-		ln := c.Var(64, "len!"+tag)
-		ex.assume(c.Ule(ln, c.I64(max)))
+		ln := c.VarR(64, "len!"+tag, 0, uint64(max))
+		ex.assume(c.RangeConstraint(ln))
 		nm := "mem!" + tag
 		iv := &InputVar{Tag: tag, Kind: "bytes", Len: ln, Name: nm, Max: int(max)}
 		ex.inputs = append(ex.inputs, iv)
